@@ -134,7 +134,18 @@ where
     type DateTime = chrono::DateTime<Tz>;
 
     fn naive(&self, dt: Self::DateTime) -> NaiveDateTime {
-        dt.with_timezone(&self.tz).naive_local()
+        use chrono::Offset;
+        let dt = dt.with_timezone(&self.tz);
+        let offset = dt.offset().fix();
+
+        // Saturate if the local time is not representable
+        dt.naive_utc().checked_add_offset(offset).unwrap_or({
+            if offset.local_minus_utc() < 0 {
+                NaiveDateTime::MIN
+            } else {
+                NaiveDateTime::MAX
+            }
+        })
     }
 
     fn datetime(&self, mut naive: NaiveDateTime) -> Self::DateTime {
